@@ -341,7 +341,21 @@ pub fn gen_c14(rng: &mut Rng, tier: Tier) -> Result<Value, serde_json::Error> {
     let cfg = GenCfg { hazard_pm: 0, max_depth: 2 + rng.usize(3), max_nodes: 6 + rng.usize(14), alphabet: 0, path_safe_names: true };
     let same_claims = rng.bool();
     let n_claims = if same_claims { 1 } else { threads };
-    let claims: Vec<Value> = (0..n_claims).map(|_| gen::gen_claims(rng, &cfg, "https://issuer-a.example", now)).collect();
+    let mut claims: Vec<Value> = (0..n_claims).map(|_| gen::gen_claims(rng, &cfg, "https://issuer-a.example", now)).collect();
+    for c in claims.iter_mut() {
+        if let Some(o) = c.as_object_mut() {
+            // the same member (name and value) at two nodes of one credential, and claim names
+            // outside ASCII: both must still get their own salt / a digest over the delivered text
+            if rng.bool() {
+                let addr = json!({"country": "DE", "verified": true, "zip": "12345", "lines": [{"item": "x", "qty": 1}, {"item": "x", "qty": 1}]});
+                o.insert("home_address".into(), addr.clone());
+                o.insert("work_address".into(), addr);
+            }
+            if rng.bool() {
+                o.insert(rng.pick(&["straße", "住所", "prénom", "имя", "ключ😀"]).to_string(), json!({"国": "日本", "naïve": [1, 2]}));
+            }
+        }
+    }
     let mut restarts = Vec::new();
     for _ in 0..rng.usize(4) {
         restarts.push((rng.usize(threads), 1 + rng.usize(per_thread)));
@@ -645,7 +659,12 @@ pub struct MockScn {
 }
 
 fn nasty_string(rng: &mut Rng) -> String {
-    let atoms = [",", ":", "[", "]", "\"", "\\", " ", "  ", "\":", ":[", ", ", "\": ", "\":  ", "{", "}", "a", "b", "1 Main St,Town", "x\":y", "p:[q", "é", "\\\"", "\\\\", "\":\"", "\",\"", "\\u0041", "\n"];
+    // includes non-ASCII characters whose low byte / UTF-16 unit / UTF-8 bytes look like JSON
+    // structural characters (U+2122 -> 0x22, U+305C -> 0x5C, U+FF5C, U+012C, U+1F622 ...)
+    let atoms = [
+        ",", ":", "[", "]", "\"", "\\", " ", "  ", "\":", ":[", ", ", "\": ", "\":  ", "{", "}", "a", "b", "1 Main St,Town", "x\":y", "p:[q", "é", "\\\"", "\\\\", "\":\"", "\",\"", "\\u0041", "\n",
+        "\u{2122}", "\u{0122}", "\u{305c}", "\u{ff5c}", "\u{1f622}", "\u{012c}", "\u{203a}", "\u{005c}\u{2122},", "Acme\u{2122}, Inc.: Berlin", "\u{ff02}", "\u{ff3c}", "\u{2c}\u{3a}",
+    ];
     let n = 1 + rng.usize(6);
     (0..n).map(|_| *rng.pick(&atoms)).collect()
 }
